@@ -52,7 +52,63 @@ CLAIMED = {
             "Classes P1-P8 on single transitions plus list-level mutations (P5/P6) on real directory histories; accepted => every leaf of the start tree still committed unchanged.",
             "Collision resistance; finite attack family.",
             "DESIGN.md 6/C09"),
+    "C10": ("fault_enumeration",
+            "fault injection at the Database boundary: every storage operation index of the victim publish fails (one-shot/sticky), same-instance post-state, retry and follow-up compared with a fault-free twin",
+            "For every op index k of the victim publish x {one-shot, sticky} x {Connection, Other} x {uncached, cached warm} x {sequential, parallel insertion, current-thread and multi-thread runtime}: Err returned, no open transaction, previous (epoch, hash), verifying proofs of the previous state only, retry equals the twin, follow-up equals the twin.",
+            "Faults are whole-operation failures at the Database trait (partial commits are C11); bounded victim shapes (<= 24 entries, prefix <= 6 epochs).",
+            "DESIGN.md 6/C10"),
+    "C11": ("fault_enumeration",
+            "crash-point enumeration: all subsets (r<=9) / many prefixes and random subsets of the captured commit batch applied to copies of the pre-commit database, fresh readers checked against the model",
+            "Every effective publish of generated histories; fresh uncached and cached ReadOnlyDirectory at each crash state must serve the previous epoch completely and nothing of the unfinished one; complete commit serves the new epoch.",
+            "Record-level atomicity and epoch record last (the documented storage contract); torn records out of scope.",
+            "DESIGN.md 6/C11"),
+    "C12": ("exploration",
+            "deterministic schedule exploration at storage-operation granularity (DFS with preemption bound, random, PCT, replay) + multi-thread stress; sequential-specification oracle ordered by returned epochs",
+            "2-3 concurrent publishes on clones; exhaustive for preemption bound 1 (quick) / 2 (thorough) per scenario; model+refhash oracle; audit against returned hashes.",
+            "Single-thread schedules interleave only at storage operations and start gates; finer interleavings only through the stress runs (and TSan in thorough).",
+            "DESIGN.md 6/C12"),
+    "C13": ("exploration",
+            "schedule exploration of readers vs publishes vs change poller (incl. responses in flight), lag runs and multi-thread stress; every Ok answer judged: pair published (first), proof verifies, result equals model",
+            "Readers on a writer clone / cached RO / uncached RO; exhaustive bound-1 for every op kind x instance kind; random+PCT; lag 0,1,2,3,5; poll monotonicity from the poller's own storage reads.",
+            "Errors are allowed answers; explicit StorageManager::flush_cache bypassing the directory lock is exploratory only.",
+            "DESIGN.md 6/C13"),
+    "C14": ("exploration",
+            "differential transcripts: one history through random points of the parallelism x cache x runtime x restart x read-only matrix and through a second harness build without the preload/parallel-VRF features; leaf-order and sub-batch permutations compared node by node",
+            "Canonical transcript after every effective epoch compared line by line with the baseline configuration; two builds compared by transcript digests; 16-40 insertion variants per leaf set.",
+            "Sampled matrix points (12/28 per history), in-memory storage only.",
+            "DESIGN.md 6/C14"),
+    "C15": ("exploration",
+            "shadow-database monitor: every read through the manager compared with the same read on a transaction-free manager over a shadow that received all writes; commit batch compared with the pending set",
+            "Random op sequences over small key universes with all retrieval flags, cached and uncached; commit/rollback/second-begin semantics.",
+            "Well-formed value states as the property states; commits always include the epoch record (as the directory does).",
+            "DESIGN.md 6/C15"),
+    "C16": ("exploration",
+            "cache monitor: after every op every key read through the cached manager is compared with the raw database (or pending value); controlled read-fill schedules with exit gates; multi-thread single-writer interval check",
+            "Sequences with rejected writes, expiry (2-5 ms lifetimes, real sleeps), memory-pressure eviction, flushes, transactions; all gate orders of 1 writer x 1-2 readers; 8-task concurrent run.",
+            "All writes to the keys go through the one manager (external storage advances are followed by flush). Wall-clock only changes coverage (how often entries expire), never the verdict.",
+            "DESIGN.md 6/C16"),
+    "C17": ("exploration",
+            "exhaustive comparison with a Vec<bool> model for all label pairs up to 10 bits, boundary sweep to 256 bits, set operations through the verif_hooks wrappers (sorted vs unsorted), tree shapes against the reference trie",
+            "Exhaustive on the <=10-bit domain (exhaustive: true refers to that domain and to all multisets of <=4 labels of <=4 bits); sampled elsewhere.",
+            "The configurations' empty-label sentinel is excluded from LCP expectations (special-cased on purpose); Eq/Ord only on canonical labels.",
+            "DESIGN.md 6/C17"),
+    "C18": ("exploration",
+            "self-consistency and single-field negative testing of the VRF binding, every single-bit flip of proofs, end-to-end through lookup_verify/key_history_verify with right and wrong keys",
+            "17 (quick) / 65 (thorough) keys x awkward labels x versions across u64 x both freshness values x both configurations.",
+            "No cryptographic reasoning; Ed25519/SHA-512 crates trusted.",
+            "DESIGN.md 6/C18"),
+    "C19": ("exploration",
+            "round-trip equality and verify-equivalence over a corpus of real proofs; hostile decoding (truncation, bit flips, splices, random bytes, message-level field deletion and out-of-range values) under catch_unwind",
+            "Every lookup/history/append-only proof and component of 400 (quick) / 4000 (thorough) histories; ~5*10^5 hostile decodes per quick run; a decoded mutant that verifies must verify to the same result.",
+            "protobuf crate trusted; wasm client path replaced by the same parse_from_bytes + try_into + verify sequence.",
+            "DESIGN.md 6/C19"),
+    "C20": ("exploration",
+            "before/after transcript on the same instance around tombstone_value_states for every cut-off epoch, plus never-tombstoned twin for the publishes that follow",
+            "All cut-offs for 1-3 labels per history; Default and AllowMissingValues verifier modes; cached and uncached; fresh instance over the tombstoned storage.",
+            "'Tombstoned entry' = entry whose stored value actually changed (an honestly published empty value IS the tombstone byte string).",
+            "DESIGN.md 6/C20"),
 }
+
 
 
 NOT_YET = {}
@@ -101,7 +157,7 @@ def main():
     json.dump(man, open(os.path.join(ROOT, "MANIFEST.json"), "w"), indent=1)
     print("wrote MANIFEST.json with", len(checks), "checks,", len(na), "not_applicable")
 
-HOOK_COMMITS = []
+HOOK_COMMITS = ["141cb13"]
 
 if __name__ == "__main__":
     main()
